@@ -685,7 +685,7 @@ def unit_decimal_init():
     def make(ctx):
         c = Contract("fields.DecimalFieldFormat.__init__", setup,
                 returns=[Clause(c_sep, "separators-are-the-data-format's-for-delimited-and-fixed-data-and-'.'-/-none-for-spreadsheet-formats", props=["C02", "C16"]),
-                         Clause(c_ranges, "valid-range-is-DecimalRange(rule,-default-range)-length-is-Range(length_text)-precision-and-scale-are-the-range's", props=["C02", "C19"]), _c_empty_value(None)],
+                         Clause(c_ranges, "valid-range-is-DecimalRange(rule,-default-range)-length-is-Range(length_text)-precision-and-scale-are-the-range's", props=["C02", "C03", "C19"]), _c_empty_value(None)],
                 raises={"InterfaceError": [Clause("range_failed", "refused-only-for-a-broken-rule-or-length-text", props=["C02", "C09"])]},
                 expect=["return", "InterfaceError"], raises_only_props=["C02", "C10"])
         return {"contract": c, "callees": {"class:Range": m_range, "class:DecimalRange": m_drange},
